@@ -68,6 +68,7 @@ def check(ctx):
     ctx.rule("R2", "every re-interpretation of Python text as a command (try_subproc_toks) is control-dependent on `not is_in_scope(<the same node>)` (allow-list: documented opt-in and non-Python assignment targets)", floor=6)
     ctx.rule("R3", "scope push/pop is paired on every normal path of the function/class visitors; lambdas and comprehensions are exempt from command interpretation", floor=6)
     ctx.rule("R5", "the set of bound names given to the parser is computed at every compile from the live builtins module and the caller's namespaces", floor=2)
+    ctx.rule("R6", "a pure-Python `and`/`or` keeps Python's meaning: the pass that wraps command chains in the raise-on-failure check wraps a BoolOp only on evidence found in that BoolOp's own subtree - the condition governing `_wrap(node)` is computed from `node`, not from a flag on the wrapper that other statements of the same input can raise", floor=1)
     ctx.rule("R4", "the whole input is compiled before anything is executed (no piecewise compile-and-run)", floor=4)
 
     mod = ctx.repo.module(AS)
@@ -340,7 +341,40 @@ def check(ctx):
         state = sorted(t for k, t in lv if k == "attr" and t.startswith("self.") and not t.startswith("self.parser"))
         ctx.ob("R5", f"{EX}:Execer.compile", "the root context contains dir(builtins) evaluated during this compile", live, key="compile|builtins-not-live", where=loc(c), detail=str(sorted(lv))[:300] if not live else None)
         ctx.ob("R5", f"{EX}:Execer.compile", "no part of the root context is read from state kept across compiles (a remembered name set goes stale when builtins gains a name)", not state, key="compile|context-from-state", where=loc(c), detail=f"reads {state}" if state else None)
+    _wrap_on_own_evidence(ctx)
 
+
+
+def _wrap_on_own_evidence(ctx):
+    from ..engine.loader import class_methods
+
+    BPF = "xonsh/parsers/base.py"
+    bp = ctx.repo.module(BPF)
+    ms = class_methods(bp.cls("_SubprocChainRaiseWrapper"))
+    vb = ms.get("_visit_boolop")
+    if vb is None:
+        raise AnchorMissing(f"{BPF}:_SubprocChainRaiseWrapper._visit_boolop")
+    nodep = param_name(vb, 0)
+    cfg = CFG(vb)
+    wraps = [n for n in cfg.nodes if n.kind == "stmt" and any(isinstance(c.func, ast.Attribute) and c.func.attr == "_wrap" and unparse(c.func.value) == "self" for c in calls_in(n.ast))]
+    if not wraps:
+        raise AnalysisError(f"{BPF}:_visit_boolop: no self._wrap(...) call")
+    vdefs = df.all_defs(vb)
+    for w in wraps:
+        own = []
+        state = []
+        for e, pol in facts_at(cfg, w):
+            # look through a local that holds the verdict
+            e2 = e
+            if isinstance(e, ast.Name) and len(vdefs.get(e.id, [])) == 1 and vdefs[e.id][0].value is not None:
+                e2 = vdefs[e.id][0].value
+            reads_node = nodep in df.names_read(e2)
+            reads_self = any(isinstance(a, ast.Attribute) and unparse(a.value) == "self" and not isinstance(parent(a), ast.Call) for a in ast.walk(e2))
+            if pol and reads_node and not reads_self:
+                own.append(unparse(e2))
+            if reads_self and not reads_node and pol:
+                state.append(unparse(e2))
+        ctx.ob("R6", f"{BPF}:_SubprocChainRaiseWrapper._visit_boolop", f"`{short(w.ast, 40)}` is governed by evidence computed from `{nodep}` itself", bool(own), key="_visit_boolop|wrap-on-foreign-evidence", where=loc(w.ast), detail=None if own else f"governing facts read wrapper state only: {state}")
 
 META = {
     "technique": "static analysis: exhaustiveness of the binder visitors against the interpreter's ast node kinds, field provenance into the context updates, CFG guard dominance of every subprocess re-interpretation, scope push/pop pairing, provenance of executed code objects",
